@@ -281,6 +281,8 @@ class World:
             if n_exists:
                 rf = await o.cmd(f"UID FETCH 1:* ({items})")
                 if not rf.ok:
+                    if rf.status == "WIREERR" and b"UID None" in bytes(o.trailing()[:400]):
+                        self.viol(["C07", "C03", "C02", "C06"], "message-reported-without-uid", f"observer {b.name}: {bytes(o.trailing()[:160])!r}")
                     self.viol(["C06"], "observer-fetch-failed", f"{b.name}: {rf.brief()}")
                 for n, d in rf.fetches():
                     if "UID" not in d:
